@@ -49,8 +49,11 @@ def evaluate(d):
         t0 = time.time()
         res = []
         for c in checks:
-            r = sh(["./check", c, "--tier", tier], env=dict(os.environ, VERIF_REPO=tmp, VERIF_NPROC="8", VERIF_SEED=seed), cwd="/verif")
-            v = "CAUGHT" if r.returncode == 1 else "missed" if r.returncode == 0 else f"ERR{r.returncode}"
+            try:
+                r = sh(["./check", c, "--tier", tier], env=dict(os.environ, VERIF_REPO=tmp, VERIF_NPROC="8", VERIF_SEED=seed, VERIF_CHECK_TIMEOUT="1500"), cwd="/verif", timeout=1800)
+                v = "CAUGHT" if r.returncode == 1 else "missed" if r.returncode == 0 else f"ERR{r.returncode}"
+            except subprocess.TimeoutExpired:
+                v = "TIMEOUT"
             res.append(f"{c}={v}")
         return (sid, tests, demo_s, " ".join(res), time.time() - t0)
     finally:
